@@ -117,6 +117,71 @@ func runC12(r *Run) {
 				}
 			}
 		}
+		// the same bound in a boolean helper (`if !flashCountPlausible(size, rest) { return }`): the rejecting edge is the
+		// edge of the caller's test on which the helper's answer means `announced > len(rest)`
+		for _, br := range branchesIn(f) {
+			if br.Info.Op != token.ILLEGAL {
+				continue
+			}
+			call, ok := stripValue(br.Info.Root).(*ssa.Call)
+			if !ok {
+				continue
+			}
+			g := call.Call.StaticCallee()
+			if g == nil || g.Pkg != f.Pkg || len(g.Blocks) == 0 || g.Signature.Results().Len() != 1 {
+				continue
+			}
+			var sizeParam *ssa.Parameter
+			for i, a := range call.Call.Args {
+				if i < len(g.Params) && dependsOn(a, func(x ssa.Value) bool {
+					c, idx := producerCall(x)
+					return c != nil && idx == 0 && strings.HasSuffix(calleeName(&c.Call), "msgp.ReadArrayHeaderBytes")
+				}) != nil {
+					sizeParam = g.Params[i]
+				}
+			}
+			if sizeParam == nil {
+				continue
+			}
+			leaves := returnLeaves(g)
+			if len(leaves) != 1 {
+				continue
+			}
+			ci := decompose(leaves[0])
+			if ci.Other == nil {
+				continue
+			}
+			onSize := func(v ssa.Value) bool { return dependsOn(v, func(x ssa.Value) bool { return x == ssa.Value(sizeParam) }) != nil }
+			onLen := func(v ssa.Value) bool {
+				return dependsOn(v, func(x ssa.Value) bool {
+					c, ok := x.(*ssa.Call)
+					return ok && calleeName(&c.Call) == "builtin:len"
+				}) != nil
+			}
+			op := ci.Op
+			switch {
+			case onSize(ci.Root) && onLen(ci.Other):
+			case onLen(ci.Root) && onSize(ci.Other):
+				op = flipOp(op)
+			default:
+				continue
+			}
+			// op now reads `size OP len`; the helper's value is true when that relation (negated if ci.Neg) holds
+			rejectsWhenTrue := op == token.GTR || op == token.GEQ
+			plausibleWhenTrue := op == token.LEQ || op == token.LSS
+			if ci.Neg {
+				rejectsWhenTrue, plausibleWhenTrue = plausibleWhenTrue, rejectsWhenTrue
+			}
+			if rejectsWhenTrue {
+				if sl, ok := br.truthSlot(true); ok {
+					cut[edge{br.If.Block(), sl}] = true
+				}
+			} else if plausibleWhenTrue {
+				if sl, ok := br.truthSlot(false); ok {
+					cut[edge{br.If.Block(), sl}] = true
+				}
+			}
+		}
 		// the cookie literal handed to c.Cookie(&Cookie{…}) at a call site: its constant fields
 		cookieLit := func(ci ssa.CallInstruction) (fields map[string]ssa.Value, ok bool) {
 			n := calleeName(ci.Common())
